@@ -520,6 +520,10 @@ impl Engine for C17 {
         ]
     }
 
+    fn expected_probes() -> &'static [&'static str] {
+        &["pile_up", "pile_up_12plus", "segment_boundary"]
+    }
+
     fn rule() -> &'static str {
         "each evaluation is one simulated session of the real example backend (server app + 1-2 client apps with RepliconExampleBackendPlugins) over in-memory byte pipes: 1..64 events of 0..1200 bytes on 5 channels in both directions, written over 1..4 frames and released to the receiver all at once, as message-aligned prefixes or at arbitrary byte positions. distinct_nontrivial counts distinct (node kind, number of messages handed to game logic in one receiver frame) pairs with at least one message"
     }
